@@ -16,3 +16,5 @@ def run(ctx, rep):
     more2.rule_arg_names(mod, rep, lambda f: re.match(r"p[sdcz]gssvx$|[sdcz]gscon$|[sdcz]langs$|[sdcz]lacon_$|[sdcz]PivotGrowth$", f.name) is not None, floor=1)
     from ..rules import more4
     more4.rule_extent_pairs(mod, rep)
+    from ..rules import more5
+    more5.rule_abs_modulus(mod, rep)
